@@ -44,6 +44,28 @@ if not jeq(ja, J(a.zero() + a)): return "left-identity"
     )
 
 
+def partition_reloaded(tree, special=False, timeout=60):
+    """partial results travel as JSON (as in the Spark path): chunks are reloaded before they are merged"""
+    params, pre, code = data_params(tree, 2, special=special, mode="real")
+    body = code + """
+a, b, c = fresh(MK, 3)
+for d, w in zip(data, ws): a.fill(d, w)
+b.fill(data[0], ws[0]); c.fill(data[1], ws[1])
+ja = J(a)
+rb, rc = Factory.fromJson(J(b)), Factory.fromJson(J(c))
+if not jeq(ja, J(rb + rc)): return "merge-of-reloaded-partials"
+if not jeq(ja, J(b + rc)): return "live-plus-reloaded"
+if not jeq(ja, J(rc + b)): return "reloaded-plus-live"
+z = Factory.fromJson(J(a.zero()))
+if not jeq(ja, J(a + z)) or not jeq(ja, J(z + a)): return "reloaded-zero-is-not-an-identity"
+"""
+    return Harness(
+        f"C01/reloaded/{tree.name}" + ("/s" if special else ""), params, " and ".join(pre), body, timeout=timeout, setup=_setup(tree),
+        tree=tree.expr, special=SPECIAL_XY if special else None,
+        bounds=bounds_text(tree, 2, chunks="2 one-record chunks, reloaded from JSON before merging", data="finite reals + nan/+inf/-inf" if special else "finite reals"),
+    )
+
+
 def partition3(tree, mode, timeout=60):
     """3 records -> 3 one-record chunks; reductions in several orders and both groupings."""
     params, pre, code = data_params(tree, 3, mode=mode)
@@ -117,6 +139,11 @@ def harnesses(tier):
         if t.uses_x and not t.cmp_only:
             out.append(partition2(t, 2, 1, "real", special=True, timeout=60))
         out.append(partition3(t, "real"))
+    for t in cat.extra_unit():
+        out.append(partition2(t, 2, 1, "real", special=True, timeout=90))
+        out.append(partition2(t, 2, 1, "real", weights=True, timeout=90))
+    for t in units + cat.extra_unit():
+        out.append(partition_reloaded(t, special=t.uses_x or t.uses_y))
     slots = cat.slot()
     if tier == "thorough":
         slots = slots[::2]  # thorough tier is sized by wall time (see DESIGN.md 7.1)
